@@ -54,6 +54,22 @@ class C06(Prop):
             form = "dfs" if r.chance(3, 4) else "random:%d" % r.below(1 << 30)
             op = {"op": "sched", "values": calls, "content": hx(content), "path": "x" if has else "~", "count": cap, "form": form}
             cases.append({"ci": False, "updvar": upd, "colour": False, "ops": [op], "meta": {"ng": ng}})
+        # two concurrent UPDATES of different slots of one file, the earlier slot's new value having another number of lines
+        # (whatever a call learnt about the file before taking the write lock - a line number, an offset - is stale by then)
+        for i in range(3 if tier == "quick" else 12):
+            r = rng.fork()
+            t1, t2 = r.shuffle([b"TestA", b"TestB", b"TestAB", b"TestC"])[:2]
+            old1, new1 = r.choice([(b"a\nb\nc", b"short"), (b"one", b"now\nthree\nlines"), (b"l1\nl2", b"")])
+            old2, new2 = r.choice([(b"x", b"y\nz"), (b"p\nq", b"r")])
+            ents = [(t1 + b" - 1", old1), (t2 + b" - 1", old2)]
+            if r.chance(1, 2):
+                ents.insert(r.below(3), (b"TestOther - 1", b"untouched\nentry"))
+            content = b"".join(frame(i_, b_) for i_, b_ in ents)
+            calls = ["0|%s|%s" % (hx(t1), hx(new1)), "1|%s|%s" % (hx(t2), hx(new2))]
+            if r.chance(1, 2):
+                calls = ["0|%s|%s" % (hx(t2), hx(new2)), "1|%s|%s" % (hx(t1), hx(new1))]
+            op = {"op": "sched", "values": calls, "content": hx(content), "path": "x", "count": cap, "form": "dfs"}
+            cases.append({"ci": False, "updvar": "true", "colour": False, "ops": [op], "meta": {"ng": 2}})
         # one shared Config used concurrently by different entry points (oracle only: the micro-step model covers
         # MatchSnapshot calls; here the claim is C12's: the location depends on the Config's options alone)
         for i in range(max(2, n // 10)):
